@@ -235,6 +235,21 @@ func checkListing(c Case) error {
 		}
 		return nil
 	}
+	// the listing handed out belongs to the caller: a later Disassemble of
+	// something else must not change it
+	{
+		keep := append([]byte{}, listing...)
+		other := []byte{0x89, 'I', 'V', 'G', 0x00, 0x05, 0x87, 0x30, 0xc0, 0x80, 0x80, 0x1f}
+		for i := 0; i < 32; i++ {
+			other = append(other, 0x90+byte(i), 0x70)
+		}
+		other = append(other, 0xe1)
+		decode.Disassemble(other)
+		decode.Disassemble(src)
+		if !bytes.Equal(keep, listing) {
+			return harness.Violatef("c11/listing-changes-later", "the listing returned by Disassemble changed after later Disassemble calls")
+		}
+	}
 	lines, err := parseLines(listing)
 	if err != nil {
 		return harness.Violatef("c11/format", "%v", err)
